@@ -44,8 +44,8 @@ Definition dec_vint (data : bytes) (start : Z) : option Z :=
 Definition unmarshal_leaf (typ : Z) (data : option bytes) : res unit :=
   let d := opt_bytes data in
   if (typ =? K.TypeDecimal) then
-    (* **inf.Dec is nullable: nil data sets nil; otherwise *inf.Dec needs 4 bytes *)
-    match data with None => Ok tt | Some _ => if blen d <? 4 then Err EUnmarshal else Ok tt end
+    (* **inf.Dec is nullable: nil data sets nil; empty data stores the zero value; otherwise 4 bytes are needed *)
+    if blen d =? 0 then Ok tt else if blen d <? 4 then Err EUnmarshal else Ok tt
   else if typ =? K.TypeDate then
     (* zero value for no bytes; otherwise four bytes are needed for binary.BigEndian.Uint32(data) *)
     if blen d =? 0 then Ok tt else if blen d <? 4 then Err EUnmarshal else Ok tt
